@@ -322,6 +322,15 @@ func (w *accWalker) expr(e ast.Expr, ctx string) {
 					return false
 				}
 			}
+		case *ast.SliceExpr:
+			// v[a:b] of a package-level array or slice: the callee it is handed to may write through the alias
+			if id, ok := t.X.(*ast.Ident); ok && w.isPkgVar(id) {
+				w.add(id, "unknown", ctx)
+				w.expr(t.Low, ctx)
+				w.expr(t.High, ctx)
+				w.expr(t.Max, ctx)
+				return false
+			}
 		case *ast.SelectorExpr:
 			// qualified identifiers pkg.Name: the selector's Sel is not a local reference
 			w.expr(t.X, ctx)
